@@ -5,6 +5,9 @@ import (
 
 	"ti/base"
 	me "ti/eval/method_evaluator"
+	"ti/lexer"
+	"ti/lexer/reader"
+	"ti/parser"
 )
 
 func atomT(s string) *base.T {
@@ -33,6 +36,20 @@ func atomT(s string) *base.T {
 		return base.MakeBlock()
 	case s == "R":
 		return base.MakeRange()
+	case s == "SELF":
+		return base.MakeSelf()
+	case s == "UNIFY":
+		return base.MakeUnify()
+	case s == "OPTU":
+		return base.MakeOptionalUnify()
+	case s == "SELFARR":
+		return base.MakeSelfArray()
+	case s == "ARG":
+		return base.MakeArgument()
+	case s == "KVARR":
+		return base.MakeKeyValueArray()
+	case strings.HasPrefix(s, "NS:"):
+		return base.MakeIdentifier(s[3:])
 	case strings.HasPrefix(s, "O:"):
 		return base.MakeObject(s[2:])
 	case strings.HasPrefix(s, "C:"):
@@ -72,4 +89,89 @@ func opMatch(args string) string {
 
 func init() {
 	ops["match"] = opMatch
+}
+
+// ---- nested recipes: I S F Y B N U K R L, O:Name, A( ... ), U( ... ), H( key= value ... )
+
+func parseNested(toks []string, pos int) (*base.T, int) {
+	tok := toks[pos]
+	switch tok {
+	case "A(", "U(":
+		var vs []base.T
+		pos++
+		for toks[pos] != ")" {
+			var t *base.T
+			t, pos = parseNested(toks, pos)
+			vs = append(vs, *t)
+		}
+		if tok == "A(" {
+			return base.MakeArray(vs), pos + 1
+		}
+		return base.MakeUnion(vs), pos + 1
+	case "H(":
+		h := base.MakeAnyHash()
+		pos++
+		for toks[pos] != ")" {
+			key := strings.TrimSuffix(toks[pos], "=")
+			var t *base.T
+			t, pos = parseNested(toks, pos+1)
+			h.AppendHashVariant(*base.MakeKeyValue(key, t))
+		}
+		return h, pos + 1
+	}
+	if tok == "U" {
+		return base.MakeUntyped(), pos + 1
+	}
+	return atomT(tok), pos + 1
+}
+
+func nestedT(s string) *base.T {
+	t, _ := parseNested(strings.Fields(s), 0)
+	return t
+}
+
+// appendv <t> | <v>   -> t.AppendVariant(v): encoding and rendering of t afterwards
+func opAppendV(args string) string {
+	ts, vs, _ := strings.Cut(args, " | ")
+	t, v := nestedT(ts), nestedT(vs)
+	t.AppendVariant(*v)
+	return base.VerifEncodeT(t) + " " + base.TypeToString(t)
+}
+
+// unify <t>   -> t.UnifyVariants()
+func opUnify(args string) string {
+	t := nestedT(args)
+	u := t.UnifyVariants()
+	return base.VerifEncodeT(u) + " " + base.TypeToString(u)
+}
+
+// render <t>
+func opRender(args string) string {
+	return base.TypeToString(nestedT(args))
+}
+
+func init() {
+	ops["appendv"] = opAppendV
+	ops["unify"] = opUnify
+	ops["render"] = opRender
+}
+
+// ret <declared return> | <receiver> | <arg> ; <arg> ...   -> calculateExecutionType: result, rendering, receiver afterwards
+func opRet(args string) string {
+	parts := strings.Split(args, " | ")
+	m := base.MakeMethod("Builtin", "m", *nestedT(parts[0]), []string{})
+	recv := nestedT(parts[1])
+	var as []*base.T
+	for _, a := range strings.Split(parts[2], ";") {
+		if strings.TrimSpace(a) != "" {
+			as = append(as, nestedT(a))
+		}
+	}
+	p := parser.New(lexer.New(reader.VerifNew(nil)), "f.rb")
+	r := me.VerifCalculateExecutionType(&p, m, recv, as)
+	return base.VerifEncodeT(r) + " " + base.TypeToString(r) + " | " + base.VerifEncodeT(recv)
+}
+
+func init() {
+	ops["ret"] = opRet
 }
